@@ -154,3 +154,7 @@ func ErrorsIs(err, target error) bool {
 		}
 	}
 }
+
+// MsgpUnsafeString stands in for msgp.UnsafeString, which reinterprets the slice header as a string header through
+// unsafe.Pointer; the copy has the same value.
+func MsgpUnsafeString(b []byte) string { return string(b) }
